@@ -52,6 +52,74 @@ def rfc_unescape(bs):
     return bytes(out)
 
 
+def judge_state(run, scn, meta, res, reqs, pend, section='state'):
+    """one put + list scenario: the bytes on disk, what trash-list prints, and (queued in reqs/pend) the model's bytes"""
+    run.count('state')
+    if res.get('harness_error') or not res['steps']:
+        run.fail('harness', 'sandbox failure', {'error': res.get('harness_error'), 'scenario': scn})
+        return
+    put, lst = res['steps'][0], res['steps'][1]
+    after = put['after']
+    uid = meta['uid']
+    if meta['where'] in ('home', 'home_deep', 'home_long'):
+        td, loc = '/home/u/.local/share/Trash', meta['full']
+    elif meta['where'] == 'selfnest':
+        td, loc = '/.Trash-%d' % uid, meta['full'][1:]
+    elif meta['where'] == 'forced':
+        td = '/vol1/.Trash/%d' % uid if meta['sticky'] else '/vol1/.Trash-%d' % uid
+        loc = meta['full']
+    else:
+        td = '/vol1/.Trash/%d' % uid if meta['sticky'] else '/vol1/.Trash-%d' % uid
+        loc = meta['full'][len('/vol1/'):]
+    infos = sorted(p for p in after if p.startswith(td + '/info/') and after[p][0] == 'f')
+    encodable = True
+    try:
+        meta['full'].encode('utf-8')
+    except UnicodeEncodeError:
+        encodable = False
+    key = ('state', meta['where'], meta['sticky'], meta['kind'], encodable, put['exit'],
+           any(c in meta['name'] for c in '%\n\r '), any(ord(c) > 127 for c in meta['name']))
+    run.nontriv(key)
+    case = {'scenario': scn, 'meta': {k: (esc(v) if isinstance(v, str) else v) for k, v in meta.items()},
+            'put_exit': put['exit'], 'put_exc': put['exc'], 'stderr': put['stderr'][-400:]}
+    if not encodable:
+        # never reaches the writer (C16 judges the way it fails); nothing must have been written
+        if infos:
+            run.fail('oracle', 'an info file was written for an un-encodable name', case, key='unencodable-info', section='state')
+        return
+    if put['exit'] != 0 or len(infos) != 1:
+        if len(os.fsencode(meta['name'])) + len('.trashinfo') > 255 and put['exit'] != 0:
+            run.nontriv(('state', 'name-too-long-for-info'))
+            return
+        run.fail('oracle', 'trash-put of an ordinary entry failed or wrote %d info files' % len(infos), case,
+                 key='put-failed', section='state')
+        return
+    data = after[infos[0]][2]
+    d = datetime.datetime(*meta['now'])
+    # O: the property's wording on the bytes on disk, by an independent reader
+    blines = data.split(b'\n')
+    ok = (len(blines) == 4 and blines[3] == b'' and blines[0] == b'[Trash Info]' and blines[1].startswith(b'Path=')
+          and blines[2].startswith(b'DeletionDate='))
+    if ok:
+        pv = blines[1][5:]
+        allowed = set(b'ABCDEFGHIJKLMNOPQRSTUVWXYZabcdefghijklmnopqrstuvwxyz0123456789_.-~/%')
+        ok = ok and all(c in allowed for c in pv)
+        ok = ok and rfc_unescape(pv) == os.fsencode(loc)
+        ok = ok and blines[2][13:].decode('ascii', 'replace') == '%04d-%02d-%02dT%02d:%02d:%02d' % tuple(meta['now'][:6])
+        ok = ok and (pv.startswith(b'/') == (meta['where'] in ('home', 'home_deep', 'home_long', 'forced'))) and b'/../' not in b'/' + pv + b'/'
+    if not ok:
+        run.fail('oracle', '.trashinfo on disk is not the spec-conformant image of (location, time)',
+                 dict(case, info_bytes=esc(data), expected_location=esc(loc)), key='bad-trashinfo', section='state')
+    # O: trash-list prints the decoded absolute path and the date
+    want = '%04d-%02d-%02d %02d:%02d:%02d %s\n' % (tuple(meta['now'][:6]) + (meta['full'],))
+    if lst['exit'] != 0 or lst['stdout'] != want:
+        run.fail('oracle', 'trash-list does not print the exact original path/date of the entry',
+                 dict(case, list_stdout=esc(lst['stdout']), want=esc(want)), key='list-mismatch', section='state')
+    # T: bytes on disk == model's format_trashinfo(loc, now)
+    reqs.append(('format_trashinfo', [tok_s(loc), arg_dt(d)]))
+    pend.append((case, data))
+
+
 def state_level(run, thorough):
     rng = run.rng
     n = 160 if not thorough else 2500
@@ -120,70 +188,7 @@ def state_level(run, thorough):
     reqs = []
     pend = []
     for scn, meta, res in zip(scns, metas, results):
-        run.count('state')
-        if res.get('harness_error') or not res['steps']:
-            run.fail('harness', 'sandbox failure', {'error': res.get('harness_error'), 'scenario': scn})
-            continue
-        put, lst = res['steps'][0], res['steps'][1]
-        after = put['after']
-        uid = meta['uid']
-        if meta['where'] in ('home', 'home_deep', 'home_long'):
-            td, loc = '/home/u/.local/share/Trash', meta['full']
-        elif meta['where'] == 'selfnest':
-            td, loc = '/.Trash-%d' % uid, meta['full'][1:]
-        elif meta['where'] == 'forced':
-            td = '/vol1/.Trash/%d' % uid if meta['sticky'] else '/vol1/.Trash-%d' % uid
-            loc = meta['full']
-        else:
-            td = '/vol1/.Trash/%d' % uid if meta['sticky'] else '/vol1/.Trash-%d' % uid
-            loc = meta['full'][len('/vol1/'):]
-        infos = sorted(p for p in after if p.startswith(td + '/info/') and after[p][0] == 'f')
-        encodable = True
-        try:
-            meta['full'].encode('utf-8')
-        except UnicodeEncodeError:
-            encodable = False
-        key = ('state', meta['where'], meta['sticky'], meta['kind'], encodable, put['exit'],
-               any(c in meta['name'] for c in '%\n\r '), any(ord(c) > 127 for c in meta['name']))
-        run.nontriv(key)
-        case = {'scenario': scn, 'meta': {k: (esc(v) if isinstance(v, str) else v) for k, v in meta.items()},
-                'put_exit': put['exit'], 'put_exc': put['exc'], 'stderr': put['stderr'][-400:]}
-        if not encodable:
-            # never reaches the writer (C16 judges the way it fails); nothing must have been written
-            if infos:
-                run.fail('oracle', 'an info file was written for an un-encodable name', case, key='unencodable-info', section='state')
-            continue
-        if put['exit'] != 0 or len(infos) != 1:
-            if len(os.fsencode(meta['name'])) + len('.trashinfo') > 255 and put['exit'] != 0:
-                run.nontriv(('state', 'name-too-long-for-info'))
-                continue
-            run.fail('oracle', 'trash-put of an ordinary entry failed or wrote %d info files' % len(infos), case,
-                     key='put-failed', section='state')
-            continue
-        data = after[infos[0]][2]
-        d = datetime.datetime(*meta['now'])
-        # O: the property's wording on the bytes on disk, by an independent reader
-        blines = data.split(b'\n')
-        ok = (len(blines) == 4 and blines[3] == b'' and blines[0] == b'[Trash Info]' and blines[1].startswith(b'Path=')
-              and blines[2].startswith(b'DeletionDate='))
-        if ok:
-            pv = blines[1][5:]
-            allowed = set(b'ABCDEFGHIJKLMNOPQRSTUVWXYZabcdefghijklmnopqrstuvwxyz0123456789_.-~/%')
-            ok = ok and all(c in allowed for c in pv)
-            ok = ok and rfc_unescape(pv) == os.fsencode(loc)
-            ok = ok and blines[2][13:].decode('ascii', 'replace') == '%04d-%02d-%02dT%02d:%02d:%02d' % tuple(meta['now'][:6])
-            ok = ok and (pv.startswith(b'/') == (meta['where'] in ('home', 'home_deep', 'home_long', 'forced'))) and b'/../' not in b'/' + pv + b'/'
-        if not ok:
-            run.fail('oracle', '.trashinfo on disk is not the spec-conformant image of (location, time)',
-                     dict(case, info_bytes=esc(data), expected_location=esc(loc)), key='bad-trashinfo', section='state')
-        # O: trash-list prints the decoded absolute path and the date
-        want = '%04d-%02d-%02d %02d:%02d:%02d %s\n' % (tuple(meta['now'][:6]) + (meta['full'],))
-        if lst['exit'] != 0 or lst['stdout'] != want:
-            run.fail('oracle', 'trash-list does not print the exact original path/date of the entry',
-                     dict(case, list_stdout=esc(lst['stdout']), want=esc(want)), key='list-mismatch', section='state')
-        # T: bytes on disk == model's format_trashinfo(loc, now)
-        reqs.append(('format_trashinfo', [tok_s(loc), arg_dt(d)]))
-        pend.append((case, data))
+        judge_state(run, scn, meta, res, reqs, pend)
     reps = model_batch(reqs)
     bad = 0
     for (case, data), rep in zip(pend, reps):
@@ -256,6 +261,18 @@ def replay(run, payload):
         print('model now says:', rep, '| recorded impl:', case.get('impl'), '| recorded model:', case.get('model'))
         if rep != case.get('impl'):
             run.fail('tie', 'function-level disagreement persists', case)
+        return
+    if 'scenario' in case and isinstance(case.get('meta'), dict) and 'where' in case['meta'] and len(case['scenario'].get('steps') or []) == 2:
+        from common import unesc
+        meta = {k: unesc(v) for k, v in case['meta'].items()}
+        res = sandbox.execute(case['scenario'])
+        reqs, pend = [], []
+        judge_state(run, case['scenario'], meta, res, reqs, pend, section='replay')
+        for (c2, data), rep in zip(pend, model_batch(reqs) if reqs else []):
+            if rep != 'S' + tok_s(data):
+                run.fail('tie', 'state-level disagreement: info bytes on disk differ from the model', dict(c2, impl=esc(data), model=rep), section='replay')
+        for st in res['steps']:
+            print('exit', st['exit'], 'exc', st['exc'], 'stdout:', esc(st['stdout']), 'stderr:', esc(st['stderr'][-300:]))
         return
     if 'scenario' in case:
         res = sandbox.execute(case['scenario'])
